@@ -17,7 +17,7 @@ type PropSpec struct {
 var properties = map[string]PropSpec{
 	"C19": {
 		Level: "other",
-		Explanation: "Explicitly narrow: necessary conditions of C19 only. MOVE: implode stores through the header exactly twice per step - the gap receives a non-nil value loaded from a later slot of the same stack (source slot = destination slot + a count proved >= 0) and exactly that source slot is then cleared - and stores no header: compaction moves existing values forward and fabricates, duplicates or drops nothing by itself. SCAN: implode's loop can be left only when the scan limit is reached (max <= count) or the slot about to be examined lies beyond the content (ulen <= start+count), by linear entailment at every exit - the last slot is examined too. GAP: defrag compacts, records an error and truncates only on paths where a nil element was found below the scan limit; a stack without nil elements is untouched. ERR: the error recorded is verifyImplode's own verdict and the header is truncated only under a nil verdict, after the compaction. NEST: Stack.Defrag consults IsNesting on every path on which the receiver was defragmented, visits elements 0..Len-1 in order and hands nested Stacks - direct elements or a Condition's expression, through both alias converters - the same scan limit. MAX: the scan limit is positive (50 unless a positive one is given). Index and slice ranges of defrag/implode/verifyImplode are C08's obligations (one of them, the truncation index, is the recorded assumption). What Defrag relies on is checked as well: stack.index's found flag means exactly 'the slot is not nil' (R-SEQ), IsNesting is truthful and uncached (R-SCAN, R-TT), and calculateDefragMax returns a positive request as given (no ceiling).",
+		Explanation: "Explicitly narrow: necessary conditions of C19 only. MOVE: implode stores through the header exactly twice per step - the gap receives a non-nil value loaded from a later slot of the same stack (source slot = destination slot + a count proved >= 0) and exactly that source slot is then cleared - and stores no header: compaction moves existing values forward and fabricates, duplicates or drops nothing by itself. SCAN: implode's loop can be left only when the scan limit is reached (max <= count) or the slot about to be examined lies beyond the content (ulen <= start+count), by linear entailment at every exit - the last slot is examined too. GAP: defrag compacts, records an error and truncates only on paths where a nil element was found below the scan limit; a stack without nil elements is untouched. ERR: the error recorded is verifyImplode's own verdict and the header is truncated only under a nil verdict, after the compaction. NEST: Stack.Defrag consults IsNesting on every path on which the receiver was defragmented, visits elements 0..Len-1 in order and hands nested Stacks - direct elements or a Condition's expression, through both alias converters - the same scan limit. MAX: the scan limit is positive (50 unless a positive one is given). Index and slice ranges of defrag/implode/verifyImplode are C08's obligations (one of them, the truncation index, is the recorded assumption). What Defrag relies on is checked as well: stack.index's found flag means exactly 'the slot is not nil' (R-SEQ), IsNesting is truthful and uncached (R-SCAN, R-TT), and calculateDefragMax returns a positive request as given (no ceiling). The verdict of verifyImplode is recorded on every path that verified (a nil verdict clears an older error); isStackKind judges by the pointer-flattened type at any depth (R-TT).",
 		NotDecided: "THE CORE OF C19 IS NOT DECIDED: that the result holds exactly the former non-nil elements in order, that Len equals their count and that Err() is nil. The truncation index and the verdict come from verifyImplode's pattern bookkeeping (a map filled in the same loop), a functional property of data out of reach of these domains. The pinned tree is in fact known - from an exhaustive run over all nil patterns of length <= 8 made by an independent test agent, not from this check - to violate the core for most patterns (e.g. Push(\"x\",nil,\"y\").Defrag() leaves [x y nil]; Push(nil,nil,nil,nil,4).Defrag() loses 4); the pinned test TestDefrag_experimental_001 hard-codes the resulting (wrong) length, so no repair can keep the unedited suite passing and none was made. This check neither reports nor masks that defect.",
 		Run: func(c *Ctx) {
 			c.ruleInv()
@@ -27,12 +27,13 @@ var properties = map[string]PropSpec{
 			c.seqIndex()
 			c.ruleScanNesting()
 			c.ttIsNestingWrappers()
+			c.ttIsStackKind() // "a nested Stack" is judged by the pointer-flattened type, any depth
 			c.rep.floor("R-DEFRAG", 4)
 		},
 	},
 	"C02": {
 		Level: "other",
-		Explanation: "Structural clauses of the String() grammar, each a necessary condition whose violation changes the rendering. NOT: in the Stack branch of defaultAssertionHandler every stack-level reading (kind, symbol, rendering) is made on the nested, converted Stack - never on the enclosing one; the NOT word is prefixed only on paths where the nested kind is NOT, it has no symbol and its rendering is non-empty (an empty nested stack contributes nothing: no dangling operator), and the word is exactly the one typ() of the nested stack returned, i.e. in the NOT stack's own case. EMPTY: stack.string collects renderings only by append(list, val) under len(val) > 0 for the very value defaultAssertionHandler returned for slot i (i = 1, 2, ... in stored order) and hands exactly that list to the assembler, so BASIC stacks, empty stacks and invalid Conditions (which render to the empty string) leave no dangling operator or delimiter. UTF8: condenseWHSP ranges over runes, writes every rune except blank (32) and tab (9) unchanged, writes one blank only for a blank or tab and uses no Unicode class test - leaf text of any script is reproduced verbatim. ENCAP: encapValue walks the pair list from the last pair to the first and wraps the value built so far as L+v+R or c+v+c, so the first configured pair ends up outermost; Condition expressions pass through it on every rendering path (R-ENCAP in C06). PAREN: stack.paren wraps exactly when the parenthetical bit is set and the kind is not BASIC (table over both atoms), with the same padding left and right. INVALID: the unguarded Condition renderer condition.string is called, anywhere in the package, only where Valid() of that very Condition has just returned nil. LEAF: in defaultAssertionHandler the text of a leaf (own String method, primitive stringer) goes to the enclosing stack's encapv and from there to padValue and the result, nothing in between; encapv hands its argument and the receiver's own pair list to encapValue; encapValue returns the bare argument only when no pair is configured (the empty string is wrapped like any other text). JOIN: a small symbolic string evaluator (constants, concatenation, path-bound phis, padValue - whose own table is checked first) computes the separator handed to join on every path of assembleStringStack and compares it with the table: word operator -> blank(s) word blank(s); symbol -> blank(s) symbol blank(s), or the bare symbol under no-padding; LIST -> the delimiter when one is set, otherwise blanks only; all five rows must reach a join. LEADONCE: the leading operator of lead-once mode is written only where at least one element rendering follows (an empty stack contributes no dangling operator). Rendering is gated by canString (valid and kind not BASIC) and the presentation policy dispatch (C14); option polarity of the getters is C18. VERBATIM: the getters the rendering code uses for the symbol and the LIST delimiter return the stored configuration field itself (nothing is applied on the way), and stack.typ hands a configured symbol on untouched - case folding applies to operator words only. OPERATOR: the operator text stack.string hands to the assembler is typ()'s text, between blanks exactly when padding is on and no symbol is set. NUMBER: a float/complex leaf is formatted at the width of its own type (FormatFloat(float64(x),..,32) for a float32). R-PURE (the effect analysis of C11 on every query): rendering reads and never writes - no memo, cache or scratch buffer in shared state - so the text is a function of the current tree and options, not of earlier calls.",
+		Explanation: "Structural clauses of the String() grammar, each a necessary condition whose violation changes the rendering. NOT: in the Stack branch of defaultAssertionHandler every stack-level reading (kind, symbol, rendering) is made on the nested, converted Stack - never on the enclosing one; the NOT word is prefixed only on paths where the nested kind is NOT, it has no symbol and its rendering is non-empty (an empty nested stack contributes nothing: no dangling operator), and the word is exactly the one typ() of the nested stack returned, i.e. in the NOT stack's own case. EMPTY: stack.string collects renderings only by append(list, val) under len(val) > 0 for the very value defaultAssertionHandler returned for slot i (i = 1, 2, ... in stored order) and hands exactly that list to the assembler, so BASIC stacks, empty stacks and invalid Conditions (which render to the empty string) leave no dangling operator or delimiter. UTF8: condenseWHSP ranges over runes, writes every rune except blank (32) and tab (9) unchanged, writes one blank only for a blank or tab and uses no Unicode class test - leaf text of any script is reproduced verbatim. ENCAP: encapValue walks the pair list from the last pair to the first and wraps the value built so far as L+v+R or c+v+c, so the first configured pair ends up outermost; Condition expressions pass through it on every rendering path (R-ENCAP in C06). PAREN: stack.paren wraps exactly when the parenthetical bit is set and the kind is not BASIC (table over both atoms), with the same padding left and right. INVALID: the unguarded Condition renderer condition.string is called, anywhere in the package, only where Valid() of that very Condition has just returned nil. LEAF: in defaultAssertionHandler the text of a leaf (own String method, primitive stringer) goes to the enclosing stack's encapv and from there to padValue and the result, nothing in between; encapv hands its argument and the receiver's own pair list to encapValue; encapValue returns the bare argument only when no pair is configured (the empty string is wrapped like any other text). JOIN: a small symbolic string evaluator (constants, concatenation, path-bound phis, padValue - whose own table is checked first) computes the separator handed to join on every path of assembleStringStack and compares it with the table: word operator -> blank(s) word blank(s); symbol -> blank(s) symbol blank(s), or the bare symbol under no-padding; LIST -> the delimiter when one is set, otherwise blanks only; all five rows must reach a join. LEADONCE: the leading operator of lead-once mode is written only where at least one element rendering follows (an empty stack contributes no dangling operator). Rendering is gated by canString (valid and kind not BASIC) and the presentation policy dispatch (C14); option polarity of the getters is C18. VERBATIM: the getters the rendering code uses for the symbol and the LIST delimiter return the stored configuration field itself (nothing is applied on the way), and stack.typ hands a configured symbol on untouched - case folding applies to operator words only. OPERATOR: the operator text stack.string hands to the assembler is typ()'s text, between blanks exactly when padding is on and no symbol is set. NUMBER: a float/complex leaf is formatted at the width of its own type (FormatFloat(float64(x),..,32) for a float32). R-PURE (the effect analysis of C11 on every query): rendering reads and never writes - no memo, cache or scratch buffer in shared state - so the text is a function of the current tree and options, not of earlier calls. NOBYPASS: encapv returns encapValue's result or nothing, a wrapping helper inside encapValue must be left+v+right on every path, and assembleStringStack returns condenseWHSP(paren(...)) on every path - no rendering escapes encapsulation or the condensation of blanks. NUMBER: nothing in the primitive stringers converts an unsigned integer to a signed one.",
 		NotDecided: "equality of the produced string with the canonical rendering over trees x option combinations as a whole (lead-once layout, fold, the outer padding and its condensation): string-valued functional correctness, out of reach of a static argument here.",
 		Run: func(c *Ctx) {
 			c.ruleInv()
@@ -281,7 +282,7 @@ var properties = map[string]PropSpec{
 	},
 	"C08": {
 		Level: "other",
-		Explanation: "The panic-site census of the whole package, for every argument value. R-BND: every index, slice and string-index expression (about 110 non-trivial sites) is proved in range on every path by linear entailment (Fourier-Motzkin) from the path's branch facts; user integers are unconstrained 64-bit values and a sum/difference/product is related to its operands only when the facts prove it cannot overflow (so MinInt/MaxInt are covered); loop counters get inductive bounds; helper functions returning lengths are inlined by return case; preconditions of unexported workers are checked at every call site and exported entry points may have none; element writes and user-element reads on a stack need index >= 1, so the configuration slot can never be written or returned through an index. R-NIL / R-REFL / R-CANIF: every nil-dereference and every panicking reflect.Value call is discharged likewise (typed nil pointers of any depth, zero Stacks/Conditions, zero reflect.Values, unexported struct fields). R-TA: every unchecked type assertion is dominated by the matching type test. R-DIV: no division by a possibly-zero integer. A method is looked up on a reflect.Value only where it tested non-zero/non-nil (calling a value-receiver method bound to a nil pointer panics). No explicit panic and no goroutine exist (R-BASE). R-SEQ (the sequence specifications of C01, restricted to the index-taking operations insert, replace, swap, remove and the position translation of stack.index): for every int argument the header left behind is the header found with exactly the prescribed change, a failing index stores nothing and reports failure, and the configuration record never ends up in a user slot. R-NILPTR: a method of the package's own interfaces (Operator, Interface) is invoked on a user-supplied value only where an in-package nil-pointer predicate said no about it, or on the operator stored in a Condition: a nil *Stack / *Condition / *ComparisonOperator among the values never has a method called through it. R-LEVEL/R-TRAV (from C07): Traverse gives up only for the reasons the lookup gives; no test of its own on a path element can ignore the negative/forward index options.",
+		Explanation: "The panic-site census of the whole package, for every argument value. R-BND: every index, slice and string-index expression (about 110 non-trivial sites) is proved in range on every path by linear entailment (Fourier-Motzkin) from the path's branch facts; user integers are unconstrained 64-bit values and a sum/difference/product is related to its operands only when the facts prove it cannot overflow (so MinInt/MaxInt are covered); loop counters get inductive bounds; helper functions returning lengths are inlined by return case; preconditions of unexported workers are checked at every call site and exported entry points may have none; element writes and user-element reads on a stack need index >= 1, so the configuration slot can never be written or returned through an index. R-NIL / R-REFL / R-CANIF: every nil-dereference and every panicking reflect.Value call is discharged likewise (typed nil pointers of any depth, zero Stacks/Conditions, zero reflect.Values, unexported struct fields). R-TA: every unchecked type assertion is dominated by the matching type test. R-DIV: no division by a possibly-zero integer. A method is looked up on a reflect.Value only where it tested non-zero/non-nil (calling a value-receiver method bound to a nil pointer panics). No explicit panic and no goroutine exist (R-BASE). R-SEQ (the sequence specifications of C01, restricted to the index-taking operations insert, replace, swap, remove and the position translation of stack.index): for every int argument the header left behind is the header found with exactly the prescribed change, a failing index stores nothing and reports failure, and the configuration record never ends up in a user slot. R-NILPTR: a method of the package's own interfaces (Operator, Interface) is invoked on a user-supplied value only where an in-package nil-pointer predicate said no about it, or on the operator stored in a Condition: a nil *Stack / *Condition / *ComparisonOperator among the values never has a method called through it. R-LEVEL/R-TRAV (from C07): Traverse gives up only for the reasons the lookup gives; no test of its own on a path element can ignore the negative/forward index options. R-LOCK pairing and re-entrancy over the whole package: a call that fails (an index addressing nothing) never returns with the stack's lock held, and no method locks a stack it already holds - the stack stays usable.",
 		NotDecided: "that -k addresses exactly the k-th element from the end is decided as the position translation row of stack.index plus the linear identity proved for factorNegIndex's result range; Traverse's failure behaviour is decided only through the bounds/nil obligations; panics inside user closures/String() methods and the Go runtime are excluded. One site is assumed (Defrag's truncation index, see assumptions).",
 		Run: func(c *Ctx) {
 			c.ruleNoUnsafe()
@@ -299,6 +300,8 @@ var properties = map[string]PropSpec{
 			c.seqSwap()
 			c.seqRemove()
 			c.seqIndex()
+			c.ruleLockPairing("R-LOCK", c.p.Funcs)  // a failing index never leaves the stack locked ("stays initialised and usable")
+			c.ruleLockReentry("R-LOCK", c.p.Funcs)  // ... and no call locks a stack it already holds
 			c.ruleTraverse() // Traverse gives up only for the reasons Index would: the lookup (which honours the index options) decides
 			c.rep.floor("R-SEQ", 5)
 			c.rep.floor("R-BND", 80)
@@ -309,7 +312,7 @@ var properties = map[string]PropSpec{
 	},
 	"C06": {
 		Level: "other",
-		Explanation: "Decides the clauses of C06 that are visible in the shape of the code. (1) R-TT: the return paths of Condition.Valid are enumerated exactly and compared, row by row, with the table the property states (nil iff keyword non-empty, operator present - a built-in one within 1..6 - and expression non-nil; an installed validity closure decides instead); the same for the expression filter (defaultAssertionExpressionHandler / assertConditionExpressionValue: empty string, nil, Stack under no-nesting, pending error are refused) and for condition.string (parentheses iff requested, padding iff not disabled). (2) R-CONDSTORE: keyword/operator/expression are written only by their setters and only after the acceptance test (operator: non-nil, not a nil pointer wrapped in the interface - no method of the offered operator is invoked before an in-package predicate, itself checked to return reflect's IsNil() for every pointer, has said no - with non-empty Context() and String(); expression: the value the filter returned with ok==true), so a rejected argument leaves the previous value; Cond records Valid()'s verdict via SetErr; Condition.String renders only when Valid()==nil and returns \"\" otherwise. (3) R-NIL/R-REFL restricted to everything reachable from Cond, Init and the setters/getters: no call panics on nil, empty or wrongly typed arguments. R-IFACECMP: nowhere in the package are two non-nil interface values compared with == / != (that panics for an uncomparable dynamic type such as a slice-based user Operator), except the confirmed sites on reflect.Type values, library sentinels and operands whose kind was just tested. R-NILPTR: a method of the package's own interfaces (Operator, Interface) is invoked on a user-supplied value only where an in-package nil-pointer predicate said no about it, or on the operator stored in a Condition: a nil *Stack / *Condition / *ComparisonOperator among the values never has a method called through it. R-TT on setState (both types): the option switches the statement quantifies over set on true, clear on false and toggle on no argument. Each private setter's write set is exactly its own component (a refused argument has no other effect, e.g. no error recorded that would block later arguments). R-HANDLE: Init replaces the instance on every return path.",
+		Explanation: "Decides the clauses of C06 that are visible in the shape of the code. (1) R-TT: the return paths of Condition.Valid are enumerated exactly and compared, row by row, with the table the property states (nil iff keyword non-empty, operator present - a built-in one within 1..6 - and expression non-nil; an installed validity closure decides instead); the same for the expression filter (defaultAssertionExpressionHandler / assertConditionExpressionValue: empty string, nil, Stack under no-nesting, pending error are refused) and for condition.string (parentheses iff requested, padding iff not disabled). (2) R-CONDSTORE: keyword/operator/expression are written only by their setters and only after the acceptance test (operator: non-nil, not a nil pointer wrapped in the interface - no method of the offered operator is invoked before an in-package predicate, itself checked to return reflect's IsNil() for every pointer, has said no - with non-empty Context() and String(); expression: the value the filter returned with ok==true), so a rejected argument leaves the previous value; Cond records Valid()'s verdict via SetErr; Condition.String renders only when Valid()==nil and returns \"\" otherwise. (3) R-NIL/R-REFL restricted to everything reachable from Cond, Init and the setters/getters: no call panics on nil, empty or wrongly typed arguments. R-IFACECMP: nowhere in the package are two non-nil interface values compared with == / != (that panics for an uncomparable dynamic type such as a slice-based user Operator), except the confirmed sites on reflect.Type values, library sentinels and operands whose kind was just tested. R-NILPTR: a method of the package's own interfaces (Operator, Interface) is invoked on a user-supplied value only where an in-package nil-pointer predicate said no about it, or on the operator stored in a Condition: a nil *Stack / *Condition / *ComparisonOperator among the values never has a method called through it. R-TT on setState (both types): the option switches the statement quantifies over set on true, clear on false and toggle on no argument. Each private setter's write set is exactly its own component (a refused argument has no other effect, e.g. no error recorded that would block later arguments). R-HANDLE: Init replaces the instance on every return path. The keyword is stored only where the argument was recognised (the asserted string, its own String() text, or a helper's first result under a true ok flag), so a wrongly typed argument cannot wipe it; the constructor records no error ahead of the expression; the encapsulation loop of C02 (every wrap is left+v+right, no 'already wrapped' shortcut) is checked here too.",
 		NotDecided: "the exact rendered text (spacing, encapsulated expression rendering) - a string-valued functional property (C02's undecided part); behaviour of user Operator/Stringer implementations",
 		Run: func(c *Ctx) {
 			c.ruleInv()
@@ -327,6 +330,7 @@ var properties = map[string]PropSpec{
 			scope := c.reach(roots...)
 			c.ruleCensus(scope, map[string]bool{"R-NIL": true, "R-REFL": true})
 			c.ruleIfaceCompare() // offered operators/expressions are never compared as interfaces (uncomparable user types panic)
+			c.ruleStrEncap() // the expression text is wrapped on every path, also when it already carries the pair
 			c.ttSetState()  // the option setters the statement quantifies over: set on true, clear on false, toggle on no argument
 			c.ruleHandle()  // Init always replaces the instance
 			c.rep.floor("R-TT", 4)
@@ -350,7 +354,7 @@ var properties = map[string]PropSpec{
 	},
 	"C13": {
 		Level: "other",
-		Explanation: "Both clauses of C13 are finite predicates and are decided exactly. R-TT enumerates the return paths of canPushNester (accept = not(isStack and no-nesting)), of Stack.CanNest / Condition.CanNest (initialised and bit clear) and of the Condition-side filter (a Stack is refused exactly under no-nesting; the previous expression is kept because the store is gated, R-CONDSTORE). R-APPEND proves that in the per-value loop the append is gated by the verdict on that very value and by isFull()==false with no write in between. R-APPEND also proves that every offered value gets its turn: the per-value loop visits x[0], x[1], ... up to len(x) and is left only past the last value, on a full stack, or (policy loop) on a rejection - a value refused by the no-nesting test does not end the batch. R-OPTW proves that switching the option writes only the option word, so elements already present are untouched; R-MASK/R-FLAGS prove that the switch itself is exactly |= / &^= of one distinct bit (a redundant 'off' stays off). R-TT: Stack.IsNesting answers its scan's verdict for every initialised receiver whatever the option says (no cached or option-dependent shortcut), and condition.isNesting is exactly isStackKind of the expression. R-CONDSTORE: setExpression writes nothing but the expression (a refused Stack leaves no trace that would make later arguments be refused).",
+		Explanation: "Both clauses of C13 are finite predicates and are decided exactly. R-TT enumerates the return paths of canPushNester (accept = not(isStack and no-nesting)), of Stack.CanNest / Condition.CanNest (initialised and bit clear) and of the Condition-side filter (a Stack is refused exactly under no-nesting; the previous expression is kept because the store is gated, R-CONDSTORE). R-APPEND proves that in the per-value loop the append is gated by the verdict on that very value and by isFull()==false with no write in between. R-APPEND also proves that every offered value gets its turn: the per-value loop visits x[0], x[1], ... up to len(x) and is left only past the last value, on a full stack, or (policy loop) on a rejection - a value refused by the no-nesting test does not end the batch. R-OPTW proves that switching the option writes only the option word, so elements already present are untouched; R-MASK/R-FLAGS prove that the switch itself is exactly |= / &^= of one distinct bit (a redundant 'off' stays off). R-TT: Stack.IsNesting answers its scan's verdict for every initialised receiver whatever the option says (no cached or option-dependent shortcut), and condition.isNesting is exactly isStackKind of the expression. R-CONDSTORE: setExpression writes nothing but the expression (a refused Stack leaves no trace that would make later arguments be refused). The worker push appends nothing itself: every value goes through one of the two per-value loops, hence through the no-nesting test.",
 		NotDecided: "IsNesting's scan over all elements is checked only through the converter rules of C12 (not claimed here); behaviour under a custom push policy (documented to ignore the option)",
 		Run: func(c *Ctx) {
 			c.ttCanPushNester()
@@ -374,7 +378,7 @@ var properties = map[string]PropSpec{
 	},
 	"C18": {
 		Level: "other",
-		Explanation: "R-FLAGS: the option constants are pairwise distinct single bits. R-MASK: shift/unshift/toggle/positive and their wrappers are exactly |=, &^=, test-and-branch on (receiver, parameter) - switching one option cannot alter another. R-TT: setState (both types) is compared row by row with the prescribed tri-state table (set on true, clear on false, toggle on no argument, nothing when uninitialised or read-only unless the flag is the read-only flag itself); the getters IsParen/IsPadded/IsReadOnly/CanNest have the stated polarity on both types. R-SWITCH: every public switch drives the option the documentation names, forwards its argument unchanged, and Stack/Condition agree. R-OPTW (in C13) / write sets: a switch writes only the option word. R-LATCH: FIFO mode is stored only after reading it as false with no write in between. R-PAIR: each setter/getter pair (ID, category, delimiter, auxiliary, error, keyword, operator, expression) goes through one field. R-KINDGUARD: the delimiter is stored only on LIST stacks, the symbol only on non-LIST stacks (the kind itself is immutable after construction). R-ENCDUP: an encapsulation entry is appended only when the duplicate scan found nothing (found-flag or early-return idiom), and the scan compares every character of the new entry (its length is taken from the call sites) with every existing pair, its loops being left only past their bound or on a duplicate. R-LOGLEVEL: the level set is merged with exactly |= / &^= of the resolved level; the shortcuts exist and are guarded (set: level exactly 0 -> none, and only when the argument did resolve to a level; level exactly 65535 -> all; unset: level exactly 65535 -> none); a raw integer is converted to a level only inside 0..65535; the two name tables are mutually inverse. R-PAIR for the auxiliary map: a map other than the caller's is stored only where no argument was given or it is known nil (an empty non-nil map is kept as given). R-LOGLEVEL: the merge can be bypassed only by the loop test, the shortcuts and the resolution flag. R-STR VERBATIM (from C02): symbol and delimiter reach the rendering exactly as stored, the symbol is never case-folded. R-TT on getState: the getters' source is the raw bit. A raw integer is converted to a level exactly when it lies in 0..65535 (every value in the range is accepted, none outside).",
+		Explanation: "R-FLAGS: the option constants are pairwise distinct single bits. R-MASK: shift/unshift/toggle/positive and their wrappers are exactly |=, &^=, test-and-branch on (receiver, parameter) - switching one option cannot alter another. R-TT: setState (both types) is compared row by row with the prescribed tri-state table (set on true, clear on false, toggle on no argument, nothing when uninitialised or read-only unless the flag is the read-only flag itself); the getters IsParen/IsPadded/IsReadOnly/CanNest have the stated polarity on both types. R-SWITCH: every public switch drives the option the documentation names, forwards its argument unchanged, and Stack/Condition agree. R-OPTW (in C13) / write sets: a switch writes only the option word. R-LATCH: FIFO mode is stored only after reading it as false with no write in between. R-PAIR: each setter/getter pair (ID, category, delimiter, auxiliary, error, keyword, operator, expression) goes through one field. R-KINDGUARD: the delimiter is stored only on LIST stacks, the symbol only on non-LIST stacks (the kind itself is immutable after construction). R-ENCDUP: an encapsulation entry is appended only when the duplicate scan found nothing (found-flag or early-return idiom), and the scan compares every character of the new entry (its length is taken from the call sites) with every existing pair, its loops being left only past their bound or on a duplicate. R-LOGLEVEL: the level set is merged with exactly |= / &^= of the resolved level; the shortcuts exist and are guarded (set: level exactly 0 -> none, and only when the argument did resolve to a level; level exactly 65535 -> all; unset: level exactly 65535 -> none); a raw integer is converted to a level only inside 0..65535; the two name tables are mutually inverse. R-PAIR for the auxiliary map: a map other than the caller's is stored only where no argument was given or it is known nil (an empty non-nil map is kept as given). R-LOGLEVEL: the merge can be bypassed only by the loop test, the shortcuts and the resolution flag. R-STR VERBATIM (from C02): symbol and delimiter reach the rendering exactly as stored, the symbol is never case-folded. R-TT on getState: the getters' source is the raw bit. A raw integer is converted to a level exactly when it lies in 0..65535 (every value in the range is accepted, none outside). R-PURE (the effect analysis of C11): a getter computes its answer from the current settings and writes nothing - no memo that a later change could fail to invalidate. The symbol is stored on every path of a non-LIST stack (an explicit empty string clears it).",
 		NotDecided: "'reflected in String()' for symbol and encapsulation (string-valued, C02's undecided part); the _random/_addr ID keywords; polarity of lead-once / fold / padding inside the rendering loop",
 		Run: func(c *Ctx) {
 			c.ruleFlagsDistinct()
@@ -394,6 +398,7 @@ var properties = map[string]PropSpec{
 			c.ruleLogLevels()
 			c.ruleStrVerbatimSettings() // symbol and delimiter reach the rendering exactly as stored
 			c.ttGetState()
+			c.rulePure() // a getter computes its answer from the current settings: no memo that a later change fails to invalidate
 			c.rep.floor("R-STR", 3)
 			c.rep.floor("R-FLAGS", 22)
 			c.rep.floor("R-MASK", 11)
@@ -408,7 +413,7 @@ var properties = map[string]PropSpec{
 	},
 	"C17": {
 		Level: "other",
-		Explanation: "R-NIL: census of every nil-panic-capable instruction of the package (pointer loads/stores, field addresses, interface invokes, calls of function values, nil-map writes, external pointer-receiver calls); each is discharged by a non-nil fact on every path (forward path-sensitive DNF facts with relational callee summaries), by provenance, by the proved object invariants (R-INV: condition.cfg, nodeConfig.log, package loggers), or becomes a (conditional) precondition that is checked at every call site; exported entry points may have no precondition (A-RECV: the pointer receiver of the four pointer-receiver methods is assumed non-nil). R-REFL/R-CANIF: the same for every panicking reflect.Value call (validity, kind, CanInterface), and a method is looked up on a Value only where it tested non-zero/non-nil (no method of a nil pointer is bound). R-HANDLE: only Free/Marshal/Init can write a handle; Free stores nil and only when initialised and with the read-only flag tested false on that path; Marshal seats only a Stack IsInit() just confirmed. R-ZERO: each exported value-receiver method is re-analysed under the assumption that the embedded pointer is nil; every return path must yield the zero answer (documented exceptions: Valid/IsEqual an error, IsZero/IsEmpty/IsPadded true, Stack.ID/Kind their constants). R-ELEMINDEP: nothing reachable from Reset branches on an element being nil, and Reset writes only content and lock bookkeeping. Free is complete: wherever it returns with the read-only flag tested false the handle holds nil (no other condition keeps the instance alive). R-IFACECMP: no comparison of two non-nil interface values outside the confirmed sites. R-NILPTR: a method of the package's own interfaces (Operator, Interface) is invoked on a user-supplied value only where an in-package nil-pointer predicate said no about it, or on the operator stored in a Condition: a nil *Stack / *Condition / *ComparisonOperator among the values never has a method called through it.",
+		Explanation: "R-NIL: census of every nil-panic-capable instruction of the package (pointer loads/stores, field addresses, interface invokes, calls of function values, nil-map writes, external pointer-receiver calls); each is discharged by a non-nil fact on every path (forward path-sensitive DNF facts with relational callee summaries), by provenance, by the proved object invariants (R-INV: condition.cfg, nodeConfig.log, package loggers), or becomes a (conditional) precondition that is checked at every call site; exported entry points may have no precondition (A-RECV: the pointer receiver of the four pointer-receiver methods is assumed non-nil). R-REFL/R-CANIF: the same for every panicking reflect.Value call (validity, kind, CanInterface), and a method is looked up on a Value only where it tested non-zero/non-nil (no method of a nil pointer is bound). R-HANDLE: only Free/Marshal/Init can write a handle; Free stores nil and only when initialised and with the read-only flag tested false on that path; Marshal seats only a Stack IsInit() just confirmed. R-ZERO: each exported value-receiver method is re-analysed under the assumption that the embedded pointer is nil; every return path must yield the zero answer (documented exceptions: Valid/IsEqual an error, IsZero/IsEmpty/IsPadded true, Stack.ID/Kind their constants). R-ELEMINDEP: nothing reachable from Reset branches on an element being nil, and Reset writes only content and lock bookkeeping. Free is complete: wherever it returns with the read-only flag tested false the handle holds nil (no other condition keeps the instance alive). R-IFACECMP: no comparison of two non-nil interface values outside the confirmed sites. R-NILPTR: a method of the package's own interfaces (Operator, Interface) is invoked on a user-supplied value only where an in-package nil-pointer predicate said no about it, or on the operator stored in a Condition: a nil *Stack / *Condition / *ComparisonOperator among the values never has a method called through it. R-LOCK pairing and re-entrancy over the whole package: Reset (like every method) neither takes a lock twice nor leaves one held, so it returns also on a mutex-enabled stack.",
 		NotDecided: "panics inside user closures / String() methods and the Go runtime; index-range panics are C08's R-BND (not part of this check)",
 		Run: func(c *Ctx) {
 			c.ruleNoUnsafe()
@@ -421,6 +426,8 @@ var properties = map[string]PropSpec{
 			c.ruleHandle()
 			c.ruleZeroResults()
 			c.ruleResetElemIndependent()
+			c.ruleLockPairing("R-LOCK", c.p.Funcs) // Reset (and every other method) returns: no lock is taken twice or left held
+			c.ruleLockReentry("R-LOCK", c.p.Funcs)
 			c.rep.floor("R-NIL", 1300)
 			c.rep.floor("R-REFL", 30)
 			c.rep.floor("R-ZERO", 100)
